@@ -14,7 +14,9 @@ Property clause → theorem (all kernel-checked, quantified over ALL totals / ep
     → `epoch_pays_le_allocation` (record), `epoch_outflow_le_allocation` (coins leaving the module account)
 * "the cumulative amount paid never exceeds the deposit"
     → `cumulative_le_deposit` (induction over any list of trigger attempts: any block times — early, late, after
-      skipped epochs —, any distribution data, panics rolled back), `epoch_clock_skips_are_not_repaid`
+      skipped epochs —, any distribution data, panics rolled back), `epoch_clock_skips_are_not_repaid`,
+      `epoch_clock_halt_realigns` (the chain-halt branch: whole durations, no epoch counted, nothing triggered),
+      `epoch_clock_no_burst` (any history of block times: triggers ≤ elapsed / duration)
 * "no farmer's payout exceeds its pro-rata share … by more than one part in 10^12 (floating-point rounding)"
     → `farmer_share_le_prorata`: for every Dec→float conversion with relative error ≤ 2⁻⁵³ (`FloatUpper`, an explicit
       hypothesis; `f64_satisfies_float_hypothesis` shows the exact round-to-nearest-even conversion satisfies it, the
@@ -28,10 +30,28 @@ Property clause → theorem (all kernel-checked, quantified over ALL totals / ep
       `master_child_share_le_prorata` / `plain_share_le_prorata_from_positions`: the same from the farmed POSITIONS
       (amount, price, decimals per farmer and pool), weight = min(master value, Σ child-pool values)
       (`weight_is_min_of_master_and_child_sum`).
+* the same three clauses for the EXTERNAL REWARD PROGRAMMES (locker, vault, lend; `Model/ExtReward.lean`):
+    "each epoch pays at most that epoch's allocation" is FALSE of the code as worded; what holds exactly:
+    → `ext_share_epoch_bound` (locker / vault: paid ≤ E·(1 + n/(2·10¹⁸)) + n/(2·10¹⁸), E = Dec(avail)/Dec(daysLeft), for n eligible
+      positions adding up to at most the total share), `ext_share_epoch_cap_partial` (the literal cap when
+      (avail + 2·daysLeft)·(n+1) < 10¹⁸), `ext_overpay_counterexample` (D20);
+      `ext_lend_block_each_programme_bounded` (lend: for ANY number of programmes handled in one block every payout comes
+      from an accumulator whose total is the sum of its truncated weights, and paid ≤ (D/T + ½ulp)·Σw + n/(2·10¹⁸) with D the
+      daily VALUE of the programme's own AvailableRewards), `ext_lend_weights_vs_total`, `ext_lend_daily_value`,
+      `ext_lend_value_at_par`, `ext_lend_epoch_cap_partial` (the literal cap at par price with integral weights),
+      `ext_lend_value_as_amount_counterexample` (D35), `ext_lend_truncated_total_counterexample` (D36)
+    "the cumulative amount paid never exceeds the deposit"
+    → `ext_cumulative_is_funding_minus_available` (any history), `ext_available_nonneg_of_epoch_caps` (cumulative ≤ funding and
+      AvailableRewards ≥ 0 PROVIDED every epoch respects the literal cap — the code does not enforce it, see the three
+      counterexamples), `ext_epochs_le_duration`, `ext_one_epoch_per_visit`, `ext_not_due_twice`, `ext_share_visit_valid`,
+      `ext_accepted_programme_funded`
+* swap-fee gauges (`sfTrigger`): `sf_epoch_pays_le_collected`; `sf_gauge_leak_counterexample` (D37: a failed fee transfer after
+  a paid distribution leaves the record unchanged, the deposit is paid again every epoch)
 * "the rewards custody account always holds at least the undistributed remainder of all active gauges and external
    reward programs"
-    → `custody_ge_remaining` (ledger invariant over create-gauge / create-programme / donations / begin blockers made of
-      gauge triggers, programme payouts, deactivations, with panicking blocks rolled back),
+    → `custody_ge_remaining` (ledger invariant over create-gauge / pool creation / create-programme / donations / begin
+      blockers made of gauge triggers, swap-fee gauge triggers, programme payouts, deactivations, with panicking blocks rolled
+      back; hypothesis `noLeak`: no swap-fee trigger of the history is the D37 situation),
       `custody_ge_active_remaining` (sum over ACTIVE gauges and programmes, under the explicit hypothesis that no
       programme's `AvailableRewards` is negative — the code has no such guard, the monitor `custody` tests it),
       `farmers_receive_calculated` (under the invariant no reward send can fail for lack of funds);
@@ -185,6 +205,73 @@ theorem epoch_clock_one_trigger_per_block (e : Epoch) (now : Int) :
     (epochStep e now).2 = true → (epochStep e now).1.count = e.count + 1 ∧ (epochStep e now).1.cur = e.cur + e.dur := by
   unfold epochStep
   split_ifs <;> simp
+
+/-- **Chain halt** (epochs.go:84-90, "In case of chain halt/stop"): when a block arrives more than two durations after the
+current epoch start, the clock jumps forward by a whole number `k ≥ 2` of durations — it stays on its grid —, lands within one
+duration before the block time, counts NO epoch (`CurrentEpoch` unchanged) and triggers nothing in that block; the epoch that
+is running at the restart is triggered by the first block after `cur' + dur`, i.e. less than one duration later. -/
+theorem epoch_clock_halt_realigns (e : Epoch) (now : Int) (hf : e.fresh = false) (hd : 0 < e.dur)
+    (hgap : e.cur + e.dur * 2 < now) :
+    (epochStep e now).2 = false ∧ (epochStep e now).1.count = e.count ∧ (epochStep e now).1.dur = e.dur ∧
+    (∃ k : Int, 2 ≤ k ∧ (epochStep e now).1.cur = e.cur + e.dur * k) ∧
+    (epochStep e now).1.cur ≤ now ∧ now < (epochStep e now).1.cur + e.dur := by
+  unfold epochStep
+  rw [if_neg (by simp [hf]), if_pos hgap]
+  have hpos : 0 ≤ now - e.cur := by nlinarith
+  rw [Int.tdiv_eq_ediv_of_nonneg hpos]
+  have h1 : (now - e.cur) / e.dur * e.dur ≤ now - e.cur := Int.ediv_mul_le _ (ne_of_gt hd)
+  have h2 : now - e.cur < ((now - e.cur) / e.dur + 1) * e.dur := Int.lt_ediv_add_one_mul_self _ hd
+  have h3 : 2 ≤ (now - e.cur) / e.dur := by
+    apply (Int.le_ediv_iff_mul_le hd).mpr; nlinarith
+  refine ⟨rfl, rfl, rfl, ⟨(now - e.cur) / e.dur, h3, rfl⟩, ?_, ?_⟩
+  · simp only; nlinarith
+  · simp only; nlinarith
+
+example : epochStep { fresh := false, cur := 1000, dur := 100, count := 7 } 1675
+    = ({ fresh := false, cur := 1600, dur := 100, count := 7 }, false) := by decide
+
+/-- **No burst after a halt, for any history of block times**: however the blocks are spaced (early, late, after one or
+many halts), the number of times a duration's gauges have been triggered up to time `T` is at most `(T − cur₀) / dur`:
+every trigger moves the clock by one duration and the clock never passes the block time. -/
+theorem epoch_clock_no_burst (e : Epoch) (times : List Int) (T : Int) (hf : e.fresh = false) (hd : 0 < e.dur)
+    (ht : ∀ t ∈ times, t ≤ T) :
+    ((runEpoch e times).2 : Int) * e.dur ≤ (runEpoch e times).1.cur - e.cur ∧
+    (runEpoch e times).1.cur ≤ max e.cur T ∧ (runEpoch e times).1.dur = e.dur := by
+  induction times generalizing e with
+  | nil => simp [runEpoch]
+  | cons now rest ih =>
+    have hnow : now ≤ T := ht now (by simp)
+    have hstep : (epochStep e now).1.fresh = false ∧ (epochStep e now).1.dur = e.dur ∧
+        (((epochStep e now).2 = true ∧ (epochStep e now).1.cur = e.cur + e.dur ∧ (epochStep e now).1.cur < now) ∨
+         ((epochStep e now).2 = false ∧ e.cur ≤ (epochStep e now).1.cur ∧ (epochStep e now).1.cur ≤ max e.cur now)) := by
+      by_cases hgap : e.cur + e.dur * 2 < now
+      · obtain ⟨a, _, c, ⟨k, hk, hk'⟩, d, _⟩ := epoch_clock_halt_realigns e now hf hd hgap
+        refine ⟨?_, c, Or.inr ⟨a, ?_, ?_⟩⟩
+        · unfold epochStep; rw [if_neg (by simp [hf]), if_pos hgap]; exact hf
+        · rw [hk']; nlinarith
+        · exact le_trans d (le_max_right _ _)
+      · unfold epochStep
+        rw [if_neg (by simp [hf]), if_neg hgap]
+        split
+        · rename_i h; exact ⟨hf, rfl, Or.inl ⟨rfl, rfl, by simp only; omega⟩⟩
+        · exact ⟨hf, rfl, Or.inr ⟨rfl, le_refl _, le_max_left _ _⟩⟩
+    obtain ⟨hf', hd', hc⟩ := hstep
+    obtain ⟨i1, i2, i3⟩ := ih (epochStep e now).1 hf' (by rw [hd']; exact hd) (fun t h => ht t (by simp [h]))
+    simp only [runEpoch]
+    rw [hd'] at i1 i3
+    refine ⟨?_, ?_, i3⟩
+    · rcases hc with ⟨h1, h2, _⟩ | ⟨h1, h2, _⟩
+      · simp only [h1, if_true]; push_cast; rw [h2] at i1; nlinarith
+      · simp only [h1, Bool.false_eq_true, if_false, Nat.add_zero]; omega
+    · rcases hc with ⟨_, h2, h3⟩ | ⟨_, _, h3⟩
+      · have : (epochStep e now).1.cur ≤ T := by omega
+        exact le_trans i2 (max_le (le_trans this (le_max_right _ _)) (le_max_right _ _))
+      · have : (epochStep e now).1.cur ≤ max e.cur T := le_trans h3 (max_le (le_max_left _ _) (le_trans hnow (le_max_right _ _)))
+        exact le_trans i2 (max_le this (le_max_right _ _))
+
+-- a clock at 1000 with duration 100 and blocks at 1101, 1150, 1675 (halt), 1690, 1701: two triggers in 701 time units
+example : runEpoch { fresh := false, cur := 1000, dur := 100, count := 0 } [1101, 1150, 1675, 1690, 1701]
+    = ({ fresh := false, cur := 1700, dur := 100, count := 2 }, 2) := by decide
 
 /-! ## Farmer shares -/
 
